@@ -119,15 +119,25 @@ def execute(mod, rng=None, case=None, stats=None, oplog=None, keep_log=False, ti
   return res
 
 
-def _worker(conn, hb, slot, name, seed, segments, seg_size, total, resume_from, skip):
+def _worker(conn, hb, slot, name, seed, next_seg, nseg, seg_size, total, first, skip):
+  """Pulls segments from the shared counter until none is left. `first` = (segment, start index)
+  lets a replacement worker finish the segment of a worker that was killed on a hung run."""
   try:
     faulthandler.enable()
     mod = load_check(name)
-    for k in segments:
-      a = k * seg_size
-      b = min(total, a + seg_size)
-      if resume_from is not None and a <= resume_from < b:
-        a = resume_from
+    pending = [first] if first is not None else []
+    while True:
+      if pending:
+        k, a = pending.pop()
+      else:
+        with next_seg.get_lock():
+          k = next_seg.value
+          next_seg.value += 1
+        if k >= nseg:
+          break
+        a = k * seg_size
+      b = min(total, (k + 1) * seg_size)
+      hb[3 * slot + 2] = k
       stats = core.Stats()
       viols = []
       per_sig = {}
@@ -138,10 +148,11 @@ def _worker(conn, hb, slot, name, seed, segments, seg_size, total, resume_from, 
       for i in range(a, b):
         if i in skip:
           continue
-        hb[2 * slot] = i
-        hb[2 * slot + 1] = int(time.monotonic() * 1000)
+        hb[3 * slot] = i
+        hb[3 * slot + 1] = int(time.monotonic() * 1000)
+
         def beat(_slot=slot):
-          hb[2 * _slot + 1] = int(time.monotonic() * 1000)
+          hb[3 * _slot + 1] = int(time.monotonic() * 1000)
         res = execute(mod, rng=core.rng_for(mod.ID, seed, i), stats=stats, ctx={"seed": seed, "index": i, "beat": beat})
         n += 1
         steps += res["steps"]
@@ -162,7 +173,7 @@ def _worker(conn, hb, slot, name, seed, segments, seg_size, total, resume_from, 
               viols.append((i, xsig, xdetail, xcase))
         elif len(stats.samples) < 2 and hasattr(mod, "sample_of"):
           stats.samples.append(mod.sample_of(res["case"]))
-      hb[2 * slot] = -1
+      hb[3 * slot] = -1
       conn.send(("seg", k, stats, viols, per_sig, xor, first_digests, n, steps))
     conn.send(("done",))
   except BaseException:  # harness bug inside a worker
@@ -172,29 +183,29 @@ def _worker(conn, hb, slot, name, seed, segments, seg_size, total, resume_from, 
 
 
 def run_seed_range(name, mod, seed, total, workers, hard_timeout, wall_budget=None):
-  seg_size = max(1, min(2000, total // (workers * 8) or 1))
+  seg_size = max(1, min(500, total // (workers * 24) or 1))
   nseg = (total + seg_size - 1) // seg_size
-  hb = CTX.RawArray("q", 2 * workers)
+  hb = CTX.RawArray("q", 3 * workers)
+  next_seg = CTX.Value("q", 0)
   for s in range(workers):
-    hb[2 * s] = -1
+    hb[3 * s] = -1
+    hb[3 * s + 2] = -1
   agg = core.Stats()
   viols = []
   sig_counts = {}
   state = {"xor": 0, "digests": {}, "runs": 0, "steps": 0, "hung": [], "errors": [], "segs_done": set()}
   procs = {}
 
-  def spawn(slot, segments, resume_from=None, skip=frozenset()):
+  def spawn(slot, first=None, skip=frozenset()):
     parent, child = CTX.Pipe(duplex=False)
-    p = CTX.Process(target=_worker, args=(child, hb, slot, name, seed, segments, seg_size, total, resume_from, skip))
+    p = CTX.Process(target=_worker, args=(child, hb, slot, name, seed, next_seg, nseg, seg_size, total, first, skip))
     p.daemon = True
     p.start()
     child.close()
-    procs[slot] = {"p": p, "conn": parent, "segments": list(segments), "skip": set(skip)}
+    procs[slot] = {"p": p, "conn": parent, "skip": set(skip)}
 
-  for s in range(workers):
-    segs = list(range(s, nseg, workers))
-    if segs:
-      spawn(s, segs)
+  for s in range(min(workers, nseg)):
+    spawn(s)
 
   t_start = time.monotonic()
   while procs:
@@ -217,8 +228,6 @@ def run_seed_range(name, mod, seed, total, workers, hard_timeout, wall_budget=No
         state["runs"] += n
         state["steps"] += steps
         state["segs_done"].add(k)
-        if k in procs[s]["segments"]:
-          procs[s]["segments"].remove(k)
       elif msg[0] == "done":
         procs[s]["p"].join(5)
         c.close()
@@ -231,25 +240,24 @@ def run_seed_range(name, mod, seed, total, workers, hard_timeout, wall_budget=No
       elif msg[0] == "eof":
         p = procs[s]["p"]
         p.join(1)
-        state["errors"].append("worker %d died (exit %s) at run %s" % (s, p.exitcode, hb[2 * s]))
+        state["errors"].append("worker %d died (exit %s) at run %s" % (s, p.exitcode, hb[3 * s]))
         c.close()
         del procs[s]
     now_ms = int(time.monotonic() * 1000)
     for s in list(procs):
-      i = hb[2 * s]
-      if i >= 0 and now_ms - hb[2 * s + 1] > hard_timeout * 1000:
-        # stuck: kill, remember, continue after it
+      i = hb[3 * s]
+      if i >= 0 and now_ms - hb[3 * s + 1] > hard_timeout * 1000:
+        # stuck: kill, remember, let a replacement finish the segment after the hung run
         pr = procs[s]
         os.kill(pr["p"].pid, signal.SIGKILL)
         pr["p"].join(5)
         pr["conn"].close()
         state["hung"].append(i)
-        segs = pr["segments"]
+        k = hb[3 * s + 2]
         skip = pr["skip"] | {i}
         del procs[s]
-        hb[2 * s] = -1
-        if segs:
-          spawn(s, segs, resume_from=i + 1 if (i + 1) // seg_size == i // seg_size else None, skip=frozenset(skip))
+        hb[3 * s] = -1
+        spawn(s, first=(k, i + 1), skip=frozenset(skip))
     if wall_budget is not None and time.monotonic() - t_start > wall_budget:
       for s in list(procs):
         os.kill(procs[s]["p"].pid, signal.SIGKILL)
@@ -257,6 +265,9 @@ def run_seed_range(name, mod, seed, total, workers, hard_timeout, wall_budget=No
         procs[s]["conn"].close()
         del procs[s]
       state["errors"].append("wall budget of %ss exhausted after %d runs" % (wall_budget, state["runs"]))
+  missing = nseg - len(state["segs_done"])
+  if missing and not state["errors"] and not state["hung"]:
+    state["errors"].append("%d segments were not reported" % missing)
   return agg, viols, sig_counts, state
 
 
